@@ -15,8 +15,8 @@
 //   with a peak heap below 512 MiB (counting allocator of this test binary; a single request above 2 GiB is refused = abort), and the
 //   process survives (stack overflow / abort cannot be caught: every family runs in a CHILD PROCESS of this test binary on a thread
 //   with the default main-thread stack of 8 MiB; the parent turns a dead child into a failure naming the case that was running).
-// Families (registered tests `c14_*`): page_tree (kid -> ancestor, self-kid, /Count huge / negative / 0, /Parent loops, 12 and 60 nested
-//   nodes; 300 / 3000 nested nodes = test `candidate_deep_parent_chain`, a FINDING on /repo 6c18973, not registered) | prev_chain (/Prev to itself, 2-loop, beyond EOF, 0, negative, 2^63; classic and stream sections) | object_streams (member of
+// Families (registered tests `c14_*`): page_tree (kid -> ancestor, self-kid, /Count huge / negative / 0, /Parent loops, 12, 60, 300 and 3000
+//   nested nodes: the last two were the finding deep_parent_chain, fixed in /repo aebe012) | prev_chain (/Prev to itself, 2-loop, beyond EOF, 0, negative, 2^63; classic and stream sections) | object_streams (member of
 //   itself, two containing each other, /Extends cycles, container not a stream, index beyond /N) | stream_length (/Length referring to the
 //   stream itself, to another stream, to a reference loop, negative, 2^31-1) | ref_chains (n 0 obj n+1 0 R of length 1000 ending in a
 //   value / in a cycle; cycles of length 1, 2, 3 reached through /Kids /Contents /Resources /Length /Pages) | trees (name / number tree
@@ -150,16 +150,8 @@ fn family(name: &str) -> Vec<Case> {
                 o(4, "<< /Type /Pages /Parent 3 0 R /Kids [3 0 R] /Count 1 >>"), o(5, &page(3, ""))], ""), 6));
             c.push(walk_case("root /Parent itself", build(&[o(1, CAT), o(2, "<< /Type /Pages /Parent 2 0 R /Kids [3 0 R] /Count 1 >>"), o(3, &page(2, ""))], ""), 4));
             c.push(walk_case("page is its own /Parent's kid and a /Pages", build(&[o(1, CAT), o(2, "<< /Type /Pages /Kids [3 0 R] /Count 1 >>"), o(3, "<< /Type /Page /Parent 3 0 R /Kids [3 0 R] /Count 1 >>")], ""), 4));
-            for depth in [12u64, 60] {
-                let mut objs = vec![o(1, CAT)];
-                for i in 0..depth { objs.push((2 + i, format!("<< /Type /Pages {} /Kids [{} 0 R] /Count 1 >>", if i > 0 { format!("/Parent {} 0 R", 1 + i) } else { String::new() }, 3 + i))); }
-                objs.push((2 + depth, page(1 + depth, "")));
-                c.push(walk_case(&format!("{} nested page tree nodes", depth), build(&objs, ""), 4));
-            }
-        }
-        // NOT registered (test `candidate_deep_parent_chain`): fails on /repo 6c18973, finding units/guard/findings/deep_parent_chain.md
-        "candidate_deep_parent_chain" => {
-            for depth in [300u64, 3000] {
+            // (300 / 3000 levels overflowed the stack before /repo aebe012: findings/deep_parent_chain.md)
+            for depth in [12u64, 60, 300, 3000] {
                 let mut objs = vec![o(1, CAT)];
                 for i in 0..depth { objs.push((2 + i, format!("<< /Type /Pages {} /Kids [{} 0 R] /Count 1 >>", if i > 0 { format!("/Parent {} 0 R", 1 + i) } else { String::new() }, 3 + i))); }
                 objs.push((2 + depth, page(1 + depth, "")));
@@ -554,5 +546,5 @@ fn run_family(fam: &str) {
 #[test] fn c14_functions() { run_family("functions") }
 #[test] fn c14_xref_numbers() { run_family("xref_numbers") }
 #[test] fn c14_nesting() { run_family("nesting") }
-/// Candidate defect, kept OUT of the registered entry (filter `c14_`): see units/guard/findings/deep_parent_chain.md
-#[test] fn candidate_deep_parent_chain() { run_family("candidate_deep_parent_chain") }
+// (a test named `candidate_*` would hold inputs that fail on /repo HEAD: the registered entry runs the filter `c14_` only. None at present:
+//  `candidate_deep_parent_chain` was folded back into c14_page_tree after /repo aebe012.)
